@@ -43,6 +43,8 @@ FORMULAS = {
     'half_open_area': '=SUM(B1:C)', 'half_open_area2': '=SUM(B:C2)', 'empty_title': '=!B1+1', 'empty_quoted_title': "=''!B1+1",
     # a number no double can hold; a flat sum of 1500 terms (4.5k characters: within Excel's limit); a whole column as the sum range; COLUMN of a column that cannot exist
     'exp_huge': '=1e5000+1', 'long_sum': '=' + '+'.join(['B1'] * 1500), 'sumif_wholecol_target': '=SUMIF(B1:B2,">1",C:C)', 'column_4letters': '=COLUMN(ZZZZ1)',
+    # digits that are not ASCII digits (Arabic-Indic three): inside a criterion text and as a number literal
+    'crit_unicode_digit': '=COUNTIFS(B1:B2,">\u0663")', 'unicode_digit_literal': '=\u0663+1',
     'col_beyond_xfd': '=XFE1+1', 'row_huge': '=A99999999+1', 'brackets8': '=((((((((B1))))))))+1',
 }
 
